@@ -1,6 +1,7 @@
 import GBProofs.Props.C06
 import GBProofs.Props.C15
 import GBProofs.SmoothInstance
+import GBProofs.ArrayDefiniteness
 /-!
 # C05 / C06 / C15 — the abstract differential-ring theorems read pointwise on genuine smooth functions
 
@@ -16,7 +17,12 @@ the evaluation model computes (`dpow_shellSmooth_apply`, `dpow_shellSmooth_eq_ax
 partial derivatives of the genuine basis functions, which ties C05 to C06/C15.
 Item (iv) of the planned trusted base (a differential ring models smooth functions) is thereby discharged.
 -/
+/-! Non-negativity (`ArrayDefiniteness.lean`): for a positive semi-definite density matrix (in particular `C n Cᵀ` with
+occupations `n ≥ 0`, `psd_of_occupations`) the density and the positive-definite kinetic energy density are non-negative at every
+point: `rho_nonneg`, `posdefKE_nonneg` — so the clipping rule never rejects such input in exact arithmetic. -/
 namespace GB.C06
+alias density_nonneg_of_psd := rho_nonneg
+alias posdef_kinetic_density_nonneg_of_psd := posdefKE_nonneg
 alias gradient_is_genuine_derivative := gradient_pointwise
 alias deriv_density_is_genuine_derivative := derivDensity_pointwise
 end GB.C06
